@@ -21,7 +21,10 @@ const B: u32 = 1_000_001;
 const Y: u32 = 1_000_002;
 const W: u32 = 1_000_003;
 
-struct Ordered(OfflineDependencyProvider<u32, Range<u32>>);
+/// first package id of the tail of a `late-<seed>` run
+const T0: u32 = 2_000_000;
+
+struct Ordered(OfflineDependencyProvider<u32, Range<u32>>, u64);
 
 impl DependencyProvider for Ordered {
     type P = u32;
@@ -32,6 +35,11 @@ impl DependencyProvider for Ordered {
     type Priority = (u32, Reverse<u32>);
     fn prioritize(&self, package: &u32, range: &Range<u32>) -> Self::Priority {
         // the chain first (in order), then A, Y, W; B last while unrestricted, first once restricted
+        if *package >= T0 {
+            // the tail of a `late` run: after the chain; by id, or fewest matching versions first (seed bit 0)
+            let count = self.0.versions(package).map(|vs| vs.filter(|v| range.contains(v)).count() as u32).unwrap_or(0);
+            return if self.1 & 1 == 0 { (1, Reverse(*package)) } else { (1, Reverse(count * 100 + (*package - T0))) };
+        }
         let class = match *package {
             B if *range == Range::full() => 0,
             B => 9,
@@ -43,6 +51,10 @@ impl DependencyProvider for Ordered {
         (class, Reverse(*package))
     }
     fn choose_version(&self, package: &u32, range: &Range<u32>) -> Result<Option<u32>, Infallible> {
+        if *package >= T0 && self.1 & 2 != 0 {
+            // oldest first (seed bit 1)
+            return Ok(self.0.versions(package).and_then(|mut vs| vs.find(|v| range.contains(v)).cloned()));
+        }
         self.0.choose_version(package, range)
     }
     fn get_dependencies(&self, package: &u32, version: &u32) -> Result<Dependencies<u32, Range<u32>, String>, Infallible> {
@@ -50,8 +62,94 @@ impl DependencyProvider for Ordered {
     }
 }
 
+/// the tail of a `late` run: 4..6 packages T0.., versions among {1,2,3}, up to 2 dependencies per version on
+/// other tail packages (cycles allowed) with sets from a small family; the root needs T0 and T0+1
+fn tail_registry(seed: u64) -> (Vec<(u32, Range<u32>)>, BTreeMap<(u32, u32), Vec<(u32, Range<u32>)>>) {
+    let mut rng = crate::util::Rng::new(seed.wrapping_mul(0x9e37_79b9).wrapping_add(77));
+    let k = 4 + rng.below(3) as u32;
+    let set = |rng: &mut crate::util::Rng| -> Range<u32> {
+        match rng.below(9) {
+            0 => Range::full(),
+            1 | 2 => Range::singleton(1 + rng.below(3) as u32),
+            3 => Range::between(1u32, 3u32),
+            4 => Range::higher_than(2u32),
+            5 => Range::singleton(1u32).union(&Range::singleton(3u32)),
+            6 => Range::strictly_lower_than(2u32),
+            7 => Range::strictly_higher_than(2u32),
+            _ => Range::singleton(2u32).complement(),
+        }
+    };
+    let mut reg = BTreeMap::new();
+    for i in 0..k {
+        for v in 1..=3u32 {
+            if rng.chance(1, 5) && v != 2 {
+                continue;
+            }
+            let mut ds: BTreeMap<u32, Range<u32>> = BTreeMap::new();
+            for _ in 0..rng.below(3) {
+                let extra = if rng.chance(1, 12) { 1 } else { 0 };
+                let q = T0 + rng.below(k as u64 + extra) as u32;
+                if q != T0 + i {
+                    ds.insert(q, set(&mut rng));
+                }
+            }
+            reg.insert((T0 + i, v), ds.into_iter().collect());
+        }
+    }
+    let root = vec![(T0, set(&mut rng)), (T0 + 1, set(&mut rng))];
+    (root, reg)
+}
+
+/// is there a valid selection of tail packages satisfying `root`'s requirements? (brute force, <= 4^7)
+fn tail_has_solution(root: &[(u32, Range<u32>)], reg: &BTreeMap<(u32, u32), Vec<(u32, Range<u32>)>>) -> bool {
+    let mut pkgs: Vec<u32> = reg.keys().map(|(p, _)| *p).collect();
+    pkgs.dedup();
+    let opts: Vec<Vec<Option<u32>>> = pkgs.iter().map(|p| std::iter::once(None).chain(reg.keys().filter(|(q, _)| q == p).map(|(_, v)| Some(*v))).collect()).collect();
+    let mut idx = vec![0usize; pkgs.len()];
+    loop {
+        let sel: BTreeMap<u32, u32> = pkgs.iter().zip(&idx).zip(&opts).filter_map(|((p, i), o)| o[*i].map(|v| (*p, v))).collect();
+        let ok_dep = |q: &u32, set: &Range<u32>| sel.get(q).is_some_and(|v| set.contains(v));
+        if root.iter().all(|(q, s)| ok_dep(q, s)) && sel.iter().all(|(p, v)| reg[&(*p, *v)].iter().all(|(q, s)| ok_dep(q, s))) {
+            return true;
+        }
+        let mut j = 0;
+        loop {
+            if j == idx.len() {
+                return false;
+            }
+            idx[j] += 1;
+            if idx[j] < opts[j].len() {
+                break;
+            }
+            idx[j] = 0;
+            j += 1;
+        }
+    }
+}
+
+fn late_seed(shape: &str) -> Option<u64> {
+    shape.strip_prefix("late-").and_then(|s| s.parse().ok())
+}
+
 fn registry(shape: &str, n: u32) -> (Ordered, BTreeMap<(u32, u32), Vec<(u32, Range<u32>)>>) {
     let mut reg: BTreeMap<(u32, u32), Vec<(u32, Range<u32>)>> = BTreeMap::new();
+    if let Some(seed) = late_seed(shape) {
+        // root -> chain 1..n (decided first, one level each) and the tail's two entry packages
+        let (troot, treg) = tail_registry(seed);
+        let mut root = vec![(1u32, Range::full())];
+        root.extend(troot);
+        reg.insert((0, 1), root);
+        for i in 1..n {
+            reg.insert((i, 1), vec![(i + 1, Range::full())]);
+        }
+        reg.insert((n, 1), vec![]);
+        reg.extend(treg);
+        let mut dp = OfflineDependencyProvider::<u32, Range<u32>>::new();
+        for ((p, v), ds) in &reg {
+            dp.add_dependencies(*p, *v, ds.iter().cloned());
+        }
+        return (Ordered(dp, seed >> 8), reg);
+    }
     let last = if shape == "jump" { A } else { 0 };
     let mut root = vec![(1u32, Range::full())];
     if shape == "jump" {
@@ -76,7 +174,7 @@ fn registry(shape: &str, n: u32) -> (Ordered, BTreeMap<(u32, u32), Vec<(u32, Ran
     for ((p, v), ds) in &reg {
         dp.add_dependencies(*p, *v, ds.iter().cloned());
     }
-    (Ordered(dp), reg)
+    (Ordered(dp, 0), reg)
 }
 
 /// `scale|<shape>|<n>`
@@ -91,7 +189,16 @@ pub fn eval_scale(req: &str, shape: &str, n: u32) -> Case {
             "panic".to_string()
         }
         Ok(Err(PubGrubError::NoSolution(_))) => {
-            fail = Some("NoSolution although the registry has a solution".into());
+            let solvable = match late_seed(shape) {
+                Some(seed) => {
+                    let (troot, treg) = tail_registry(seed);
+                    tail_has_solution(&troot, &treg)
+                }
+                None => true,
+            };
+            if solvable {
+                fail = Some("NoSolution although the registry has a solution".into());
+            }
             "nosolution".to_string()
         }
         Ok(Err(e)) => {
@@ -126,7 +233,7 @@ pub fn eval_scale(req: &str, shape: &str, n: u32) -> Case {
             format!("ok {} packages", sel.len())
         }
     };
-    Case { req: req.to_string(), imp, nontrivial: true, oracle_fail: fail, tags: vec![if shape == "jump" { "scale_long_backjump" } else { "scale_chain" }] }
+    Case { req: req.to_string(), imp, nontrivial: true, oracle_fail: fail, tags: vec![if shape == "jump" { "scale_long_backjump" } else if shape.starts_with("late") { "scale_late_conflicts" } else { "scale_chain" }] }
 }
 
 pub fn gen_scale(sink: &mut Sink, thorough: bool) {
@@ -146,5 +253,56 @@ pub fn gen_scale(sink: &mut Sink, thorough: bool) {
     for n in chains {
         sink.push(eval_line(&format!("scale|chain|{}", n)));
     }
+    // late conflicts: a conflict-rich tail decided on top of a chain of n levels, so that conflicts, backjumps
+    // and re-decisions all happen at decision levels around 2^8 / 2^16.  The tails are chosen (on a chain of 3)
+    // among random ones for having at least two backtracks — their behaviour does not depend on the chain.
+    let mut tails: Vec<u64> = vec![];
+    let mut seed = 0u64;
+    let want = if thorough { 24 } else { 8 };
+    while tails.len() < want && seed < 4000 {
+        seed += 1;
+        let (dp, _) = registry(&format!("late-{}", seed), 3);
+        let counter = BacktrackCounter { inner: dp, picks: std::cell::RefCell::new(vec![]) };
+        let _ = std::panic::catch_unwind(std::panic::AssertUnwindSafe(|| resolve(&counter, 0u32, 1u32)));
+        // a package chosen again = a backtrack undid its decision
+        let picks = counter.picks.borrow();
+        let repeats = picks.iter().enumerate().filter(|(i, p)| picks[..*i].contains(p)).count();
+        if repeats >= 2 {
+            tails.push(seed);
+        }
+    }
+    let late_ns: Vec<u32> = if thorough { (65_530..=65_538).chain(252..=258).collect() } else { vec![254, 256, 65_533, 65_535] };
+    for (i, t) in tails.iter().enumerate() {
+        for (j, n) in late_ns.iter().enumerate() {
+            if thorough || (i + j) % 2 == 0 {
+                sink.push(eval_line(&format!("scale|late-{}|{}", t, n)));
+            }
+        }
+    }
+    sink.notes.push(format!("late-conflict runs: {} conflict-rich tails (>= 2 backtracks each) on top of chains of {:?} decision levels; Ok checked for validity and reachability, NoSolution against a brute-force search of the tail", tails.len(), late_ns));
     sink.notes.push(format!("scale runs (direct oracles only, not mirrored): long backjumps over n + 2 decision levels for n in {:?}, conflict-free chains of {:?} packages", lens, chains));
+}
+
+/// records which packages `choose_version` is asked about (to count re-decisions)
+struct BacktrackCounter {
+    inner: Ordered,
+    picks: std::cell::RefCell<Vec<u32>>,
+}
+impl DependencyProvider for BacktrackCounter {
+    type P = u32;
+    type V = u32;
+    type VS = Range<u32>;
+    type M = String;
+    type Err = Infallible;
+    type Priority = (u32, Reverse<u32>);
+    fn prioritize(&self, package: &u32, range: &Range<u32>) -> Self::Priority {
+        self.inner.prioritize(package, range)
+    }
+    fn choose_version(&self, package: &u32, range: &Range<u32>) -> Result<Option<u32>, Infallible> {
+        self.picks.borrow_mut().push(*package);
+        self.inner.choose_version(package, range)
+    }
+    fn get_dependencies(&self, package: &u32, version: &u32) -> Result<Dependencies<u32, Range<u32>, String>, Infallible> {
+        self.inner.get_dependencies(package, version)
+    }
 }
